@@ -141,6 +141,24 @@ def fd_touch(fd):
     return out
 
 
+def subexprs(obj, k, skip=0):
+    """k nodes of the expression DAG(s) of a form / expression in pre-order, after
+    skipping ``skip`` (wrapping around)."""
+    from ufl.corealg.traversal import unique_pre_traversal
+
+    nodes = []
+    if isinstance(obj, Form):
+        for itg in obj.integrals():
+            nodes.extend(unique_pre_traversal(itg.integrand()))
+    else:
+        nodes.extend(unique_pre_traversal(obj))
+    if not nodes:
+        return []
+    skip = skip % len(nodes)
+    nodes = nodes[skip:] + nodes[:skip]
+    return nodes[:k]
+
+
 def getitem(a, idx):
     return a[idx]
 
